@@ -1037,20 +1037,32 @@ fn table_to_render_tree<'a, T: Write>(
 ) -> TreeMapResult<'a, HtmlContext, RenderInput, RenderNode> {
     pending(input, move |_, rowset| {
         let mut rows = vec![];
+        // Children which aren't row groups (a caption) are kept, before the table.
+        let mut others = vec![];
         for bodynode in rowset {
-            if let RenderNodeInfo::TableBody(body) = bodynode.info {
-                rows.extend(body);
-            } else {
-                html_trace!("Found in table: {:?}", bodynode.info);
+            match bodynode.info {
+                RenderNodeInfo::TableBody(body) => rows.extend(body),
+                _ => {
+                    html_trace!("Found in table: {:?}", bodynode.info);
+                    if !bodynode.is_shallow_empty() {
+                        others.push(bodynode);
+                    }
+                }
             }
         }
-        if rows.is_empty() {
+        let table = if rows.is_empty() {
             None
         } else {
             Some(RenderNode::new_styled(
                 RenderNodeInfo::Table(RenderTable::new(rows)),
                 computed,
             ))
+        };
+        if others.is_empty() {
+            table
+        } else {
+            others.extend(table);
+            Some(RenderNode::new(RenderNodeInfo::Container(others)))
         }
     })
 }
